@@ -589,19 +589,11 @@ func malformed(doc *J) []reason {
 			for _, bm := range m.V.O {
 				switch bm.K {
 				case "lowerLeft":
-					if bm.V.Kind != jNull {
-						ll = bm.V
-					}
-					if bm.V.Kind != jNull {
-						checkPoint(bm.V, "boundingBox.lowerLeft", &rs)
-					}
+					ll = bm.V
+					checkPoint(bm.V, "boundingBox.lowerLeft", &rs) // every occurrence is decoded (streaming); null is an error too
 				case "upperRight":
-					if bm.V.Kind != jNull {
-						ur = bm.V
-					}
-					if bm.V.Kind != jNull {
-						checkPoint(bm.V, "boundingBox.upperRight", &rs)
-					}
+					ur = bm.V
+					checkPoint(bm.V, "boundingBox.upperRight", &rs) // every occurrence is decoded (streaming); null is an error too
 				case "orderedAxes":
 					checkOptStrings(bm.V, "boundingBox.orderedAxes", &rs)
 					if bm.V.Kind == jArr && len(bm.V.A) != 2 {
